@@ -266,27 +266,32 @@ def _read_pvd(path):
     return [(d.getAttribute("timestep"), d.getAttribute("file")) for d in doc.getElementsByTagName("DataSet")]
 
 
+NAMES = [("body", "other", "other2"), ("pm_0.5", "table_rev.2", "v1.2.3"), ("left wheel", "a.b", "a.c")]
+
+
 @contract("C29", "export_contr/dataflow", samples=0, replayable=False, timeout=60)
 def c_dataflow(k):
     if not k.sym:
         raise K.Reject("symbolic only")
     k.covers(ve.Export.export_contr, ve.make_ugrid, ve.dtype_map)
-    for n, T, fps in CASES[:3]:
-        for ascii_ in (False, True):
+    # contribution names are arbitrary strings: plain ones, and ones that contain dots (names built from floats or
+    # version tags: "pm_0.5", "v1.2.3") or blanks - the frame index and the extension are appended, nothing is replaced
+    for (nA, nB, nC), (n, T, fps), ascii_ in [(NAMES[0], c_, a_) for c_ in CASES[:3] for a_ in (False, True)] + [(nm, CASES[1], False) for nm in NAMES[1:]]:
+        if True:
             sol, fields = _solution(k, n, T)
             fake = _FakeVTK()
-            tag = f"[{n} frames, fps={fps}, {'ascii' if ascii_ else 'binary'}]"
+            tag = f"[{n} frames, fps={fps}, {'ascii' if ascii_ else 'binary'}{'' if nA == 'body' else ', names ' + repr((nA, nB, nC))}]"
             with tempfile.TemporaryDirectory() as tmp, _env(fake):
                 e = ve.Export(Path(tmp), "out", True, fps, sol, write_ascii=ascii_)
-                a, b, c2 = _Contr("body"), _Contr("body"), _Contr("other", npts=3, off=1)
+                a, b, c2 = _Contr(nA), _Contr(nA), _Contr(nB, npts=3, off=1)
                 e.export_contr(a)
                 first = dict(fake.files)
-                e.export_contr(b, file_name="body")  # same resolved name: must not touch the first export's files
-                e.export_contr([c2, _Contr("other2", npts=2)], some_option=1)
+                e.export_contr(b, file_name=nA)  # same resolved name: must not touch the first export's files
+                e.export_contr([c2, _Contr(nC, npts=2)], some_option=1)
                 frames = list(e.solution)
                 pvds = sorted(p.name for p in Path(e.path).glob("*.pvd"))
-                k.prove(f"one collection per export, names made unique {tag}", pvds == ["body.pvd", "body1.pvd", "other.pvd"])
-                for pvd, contrs in (("body.pvd", [a]), ("body1.pvd", [b]), ("other.pvd", None)):
+                k.prove(f"one collection per export, names made unique {tag}", pvds == sorted([f"{nA}.pvd", f"{nA}1.pvd", f"{nB}.pvd"]))
+                for pvd, contrs in ((f"{nA}.pvd", [a]), (f"{nA}1.pvd", [b]), (f"{nB}.pvd", None)):
                     entries = _read_pvd(Path(e.path) / pvd)
                     k.prove(f"{pvd}: one DataSet per kept frame {tag}", len(entries) == len(frames))
                     k.prove(f"{pvd}: timesteps are the kept times in order {tag}", [ts for ts, _ in entries] == [f"{f.t:0.6f}" for f in frames])
@@ -308,7 +313,7 @@ def c_dataflow(k):
                         _grid_eq(k, f"{pvd} frame {i} {tag}", grid, pts, cells, pd, cd)
                 for fn, recs in first.items():
                     k.prove(f"a later export under the same name does not rewrite {Path(fn).name} {tag}", len(fake.files[fn]) == 1 and fake.files[fn][0] is recs[0])
-                k.prove(f"export kwargs reach the contribution, file_name too {tag}", all(kw == {} for _, kw in a.calls) and all(kw == {"file_name": "body"} for _, kw in b.calls) and all(kw == {"some_option": 1} for _, kw in c2.calls))
+                k.prove(f"export kwargs reach the contribution, file_name too {tag}", all(kw == {} for _, kw in a.calls) and all(kw == {"file_name": nA} for _, kw in b.calls) and all(kw == {"some_option": 1} for _, kw in c2.calls))
                 k.prove(f"each contribution is asked once per kept frame, in time order {tag}", [float(t) for t, _ in a.calls] == [float(f.t) for f in frames])
 
 
